@@ -142,10 +142,15 @@ def explore(modname, shards, nproc=None, chunk=300, budget_s=600,
                         s["shard"] = key
                         res.samples.append(s)
                 if r["status"] != "ok":
+                    # this sub-tree cannot be decided; keep exploring the others
+                    # (a replayed counterexample elsewhere still counts), but the
+                    # run can no longer end as "exhausted"
                     if res.status == "ok":
                         res.status = r["status"]
-                    res.messages.append("[%s] %s" % (key, r["msg"]))
-                    stop = True
+                    if len(res.messages) < 20:
+                        res.messages.append("[%s] %s" % (key, r["msg"]))
+                    res.exhausted = False
+                    r["rest"] = []
                 for p in r["rest"]:
                     queue.append((m, f, key, params, p))
                 if len(res.violations) >= max_violations:
